@@ -81,11 +81,14 @@ pub fn gen_map(rng: &mut Rng, t: &str, zero_width_eol: bool, content_for: &dyn F
     }
   }
   let with_content = rng.chance(2);
-  let contents = if with_content { sources.iter().map(|s| content_for(s)).collect() } else { vec![] };
+  let fixed = FIXED_CONTENT_POLICY.with(|c| c.get());
+  // fixed policy: whether a file has content depends on its name only (s2.js never has), so a name shared by several maps carries the same content everywhere
+  let contents = if fixed { sources.iter().take(2).map(|s| content_for(s)).collect() } else if with_content { sources.iter().map(|s| content_for(s)).collect() } else { vec![] };
   let root = match rng.below(6) { 0 => Some("".to_string()), 1 => Some("r".to_string()), 2 => Some("r/".to_string()), _ => None };
   SMapT { mappings: encode_mappings(ms.into_iter()), sources, contents, names, file: if rng.chance(2) { Some("x".into()) } else { None }, root, debug_id: None }
 }
 
+thread_local! { pub static FIXED_CONTENT_POLICY: std::cell::Cell<bool> = std::cell::Cell::new(false); }
 pub fn default_content(s: &str) -> String { format!("content of {s}\nline2 abc;\nline3\nline4\n") }
 
 /// sorted (or not) segments anywhere, indices possibly outside the tables
@@ -204,10 +207,13 @@ pub fn src_of(t: &T) -> String { Ctx::default().build(t).source().to_string() }
 pub fn gen_combined(rng: &mut Rng, cfg: &GenCfg) -> T {
   let orig_text = text(rng, cfg.maxlen + 4, false);
   let gen_text = text(rng, cfg.maxlen + 2, false);
-  let inner_name = "inner.js";
+  let inner_name_owned = if cfg.fixed_files { format!("inner{}.js", rng.below(1 << 20)) } else { "inner.js".to_string() };
+  let inner_name: &str = &inner_name_owned;
   // inner map over orig_text
-  let mut inner = gen_map(rng, &orig_text, false, &|s| format!("ab;cd {s}\nsecond line;\nthird\n"));
-  if rng.chance(3) { inner.sources[0] = inner_name.to_string(); } // inner source also named like the inner file
+  let mut inner = if cfg.fixed_files { gen_map(rng, &orig_text, false, &default_content) } else { gen_map(rng, &orig_text, false, &|s| format!("ab;cd {s}\nsecond line;\nthird\n")) };
+  // the inner map's files live in their own name space (a name shared with the outer map would have to carry the same content)
+  for (k, sname) in inner.sources.iter_mut().enumerate() { *sname = format!("in{k}.js"); }
+  if cfg.mb && rng.chance(3) { inner.sources[0] = inner_name.to_string(); } // inner source also named like the inner file
   // outer map over gen_text, one of the sources is the inner source name
   let mut outer = gen_map(rng, &gen_text, false, &default_content);
   let k = rng.below(outer.sources.len());
@@ -225,7 +231,7 @@ pub fn gen_combined(rng: &mut Rng, cfg: &GenCfg) -> T {
     }
   }
   outer.mappings = encode_mappings(ms.into_iter());
-  let give_orig = rng.chance(2);
+  let give_orig = rng.chance(2) || (!outer.contents.is_empty() && k >= outer.contents.len());
   if !give_orig && !outer.contents.is_empty() { outer.contents[k] = orig_text.clone(); }
   if !give_orig && outer.contents.is_empty() { outer.contents = outer.sources.iter().map(|s| if s == inner_name { orig_text.clone() } else { default_content(s) }).collect(); }
   outer.root = None;
